@@ -202,6 +202,79 @@ inline void build_generators() {
                         std::to_string(sp),
                     g, c);
           }
+  // F. two non-position attributes with different seam patterns (Edgebreaker per-attribute connectivity)
+  for (auto &t : topos) {
+    if (t.first != "closed_fan3" && t.first != "fan4" && t.first != "tetrahedron" && t.first != "two_pillows") continue;
+    const uint32_t nbits = 3 * t.second.size(), mask = (1u << nbits) - 1;
+    for (auto bb : std::vector<std::pair<uint32_t, uint32_t>>{{0x249u & mask, 0x1c7u & mask}, {0x5a5u & mask, 0x0f0u & mask}, {1u, mask - 1}})
+      for (int mk : {2, 3})
+        for (int split : {-1, 0})
+          for (int sp : {0, 5}) {
+            GeomDef g = gs::s2b_mesh(t.second, bb.first, bb.second, gs::POS_F32_Q, gs::SEAM_TEX_Q, gs::SEAM_GENERIC_U8);
+            EncCfg c = gs::mesh_cfg(mk, sp);
+            c.split_on_seams = split;
+            c.qbits = {11, 10, 0};
+            add_gen("F:" + t.first + ":bits" + std::to_string(bb.first) + "_" + std::to_string(bb.second) + ":m" + std::to_string(mk) + ":split" +
+                        std::to_string(split) + ":s" + std::to_string(sp),
+                    g, c);
+          }
+  }
+  // G. raw (not entropy coded) integer storage: a small value block followed by plenty of further data
+  for (int n : {1, 2, 5})
+    for (int method : {0, 1})
+      for (int mesh : {0, 1}) {
+        if (mesh && (n < 3 || method == 1)) continue;
+        GeomDef g;
+        g.is_mesh = mesh != 0;
+        g.num_points = n;
+        if (mesh) g.faces = {{0, 1, 2}, {2, 1, 3}, {2, 3, 4}};
+        AttDef pos, wide, col;
+        pos.type = GeometryAttribute::POSITION; pos.dt = DT_INT32; pos.nc = 3; pos.uid = 0;
+        wide.type = GeometryAttribute::GENERIC; wide.dt = DT_UINT8; wide.nc = 16; wide.uid = 1;
+        col.type = GeometryAttribute::COLOR; col.dt = DT_UINT16; col.nc = 4; col.uid = 2;
+        for (int i = 0; i < n; ++i) {
+          pos.entries.push_back(bytes_of(std::vector<int32_t>{i * 1000, -i, 70000 * (i % 2)}));
+          std::vector<uint8_t> w(16);
+          for (int k = 0; k < 16; ++k) w[k] = (uint8_t)(i * 16 + k * 3);
+          wide.entries.push_back(w);
+          col.entries.push_back(bytes_of(std::vector<uint16_t>{(uint16_t)(i * 300), 65535, 0, (uint16_t)(i + 256)}));
+        }
+        g.atts = {pos, wide, col};
+        EncCfg c;
+        c.method = method;
+        c.speed_enc = c.speed_dec = 5;
+        c.builtin_entropy = false;
+        c.qbits = {0, 0, 0};
+        add_gen(std::string("G:raw_storage:") + (mesh ? "mesh" : "cloud") + ":n" + std::to_string(n) + ":m" + std::to_string(method), g, c);
+      }
+  // H. explicit quantization, also with fewer origin dimensions than the attribute has components
+  for (int dims : {3, 4})
+    for (int method : {0, 1})
+      for (int mesh : {0, 1})
+        for (int bits : {7, 14}) {
+          if (mesh && method == 1) continue;
+          GeomDef g;
+          g.is_mesh = mesh != 0;
+          g.num_points = 4;
+          if (mesh) g.faces = {{0, 1, 2}, {2, 1, 3}};
+          AttDef pos, gen4;
+          pos.type = GeometryAttribute::POSITION; pos.dt = DT_FLOAT32; pos.nc = 3; pos.uid = 0;
+          gen4.type = GeometryAttribute::GENERIC; gen4.dt = DT_FLOAT32; gen4.nc = 4; gen4.uid = 1;
+          for (int i = 0; i < 4; ++i) {
+            pos.entries.push_back(bytes_of(std::vector<float>{i * 0.25f, 1.f - i * 0.125f, 0.5f}));
+            gen4.entries.push_back(bytes_of(std::vector<float>{0.1f * i, 0.9f - 0.2f * i, 0.5f, 0.25f * i}));
+          }
+          g.atts = {pos, gen4};
+          EncCfg c;
+          c.method = method;
+          c.speed_enc = c.speed_dec = 3;
+          c.qbits = {bits, bits};
+          c.explicit_q[0] = {std::vector<float>{0.f, 0.f, 0.f}, 1.f};
+          c.explicit_q[1] = {std::vector<float>(dims, 0.f), 1.f};
+          add_gen(std::string("H:explicit_q:") + (mesh ? "mesh" : "cloud") + ":origin_dims" + std::to_string(dims) + ":m" + std::to_string(method) +
+                      ":bits" + std::to_string(bits),
+                  g, c);
+        }
   // E. a larger strip (16-bit indices, many symbols)
   for (int mk : {0, 1, 2, 3})
     for (int sp : {0, 10}) {
